@@ -32,16 +32,13 @@ fn main() {
     std::process::exit(64);
   }
   if args[1] == "fccustom" {
-    println!("== direct: export * as ns ==");
-    fc::debug_custom(
-      &[("/mod.ts", "export * as ns from \"./x.ts\";\n"), ("/x.ts", "export default interface Foo { a: number }\nexport const named: number = 1;\n")],
-      &[(".", "./mod.ts")],
-    );
-    println!("== through export * ==");
-    fc::debug_custom(
-      &[("/mod.ts", "export * from \"./u.ts\";\n"), ("/u.ts", "export * as ns from \"./x.ts\";\n"), ("/x.ts", "export default interface Foo { a: number }\nexport const named: number = 1;\n")],
-      &[(".", "./mod.ts")],
-    );
+    // dgv fccustom <case.json>: {"files": {"/mod.ts": "..."}, "exports": {".": "./mod.ts"}}
+    let v: serde_json::Value = serde_json::from_str(&std::fs::read_to_string(&args[2]).expect("case file")).expect("json");
+    let files: Vec<(String, String)> = v["files"].as_object().unwrap().iter().map(|(k, v)| (k.clone(), v.as_str().unwrap().to_string())).collect();
+    let exports: Vec<(String, String)> = v["exports"].as_object().unwrap().iter().map(|(k, v)| (k.clone(), v.as_str().unwrap().to_string())).collect();
+    let f: Vec<(&str, &str)> = files.iter().map(|(a, b)| (a.as_str(), b.as_str())).collect();
+    let e: Vec<(&str, &str)> = exports.iter().map(|(a, b)| (a.as_str(), b.as_str())).collect();
+    fc::debug_custom(&f, &e);
     return;
   }
   if args[1] == "fcdbg" {
